@@ -550,10 +550,26 @@ func (h *Haystack) HasNumber(raw string) bool {
 		}
 	}
 	core := strings.TrimLeft(raw, "-")
-	if len(core) >= 7 && strings.Contains(h.all, core) {
-		return true
+	if len(core) < 7 {
+		return false
 	}
-	return false
+	// inside strings and keys the digits must stand on their own: a run of 7 digits in the middle of a
+	// pseudonym's 16 hex digits or of a base64 ciphertext is a coincidence, not the number
+	// (seen once: -6003959 against REDACTED_3e23e8160039594a, the pseudonym of the field "b")
+	alnum := func(c byte) bool { return c >= '0' && c <= '9' || c >= 'a' && c <= 'z' || c >= 'A' && c <= 'Z' || c == '+' || c == '/' }
+	for off := 0; ; {
+		i := strings.Index(h.all[off:], core)
+		if i < 0 {
+			return false
+		}
+		i += off
+		before := i == 0 || !alnum(h.all[i-1])
+		after := i+len(core) == len(h.all) || !alnum(h.all[i+len(core)])
+		if before && after {
+			return true
+		}
+		off = i + 1
+	}
 }
 
 // ---------------------------------------------------------------- tagged walk
